@@ -1,13 +1,21 @@
 /* C15 helper: functions whose first argument is a 'T *' for every character
    element type.  cffi converts a Python bytes/str argument into a temporary
    C string; the function copies n units of what it received into dst so that
-   the check can look at the units the callee really saw. */
+   the check can look at the units the callee really saw.
+
+   The same text is compiled twice: as a plain shared object (gcc; in-line ABI
+   path "arg") and as the source of an API-mode module (path "arg_api", where
+   the conversion goes through _cffi_convert_array_argument). */
 #include <string.h>
+#include <stddef.h>
+#include <stdint.h>
 #include <wchar.h>
 #include <uchar.h>
 
 #define COPY(NAME, T) \
-    void c15_copy_##NAME(const T *src, T *dst, long n) { memcpy(dst, src, (size_t)n * sizeof(T)); }
+    void c15_copy_##NAME(const T *src, T *dst, long n) { memcpy(dst, src, (size_t)n * sizeof(T)); } \
+    struct c15_flexref_##NAME { int n; T a[]; }; \
+    int c15_flexoff_##NAME(void) { return (int)offsetof(struct c15_flexref_##NAME, a); }
 
 COPY(char, char)
 COPY(schar, signed char)
@@ -15,5 +23,7 @@ COPY(uchar, unsigned char)
 COPY(wchar, wchar_t)
 COPY(char16, char16_t)
 COPY(char32, char32_t)
+COPY(int8, int8_t)
+COPY(uint8, uint8_t)
 
 int c15_sizeof_wchar(void) { return (int)sizeof(wchar_t); }
